@@ -354,6 +354,15 @@ theorem imp_times_proposal (m0 T : ℝ) (hT : T ≠ 0) (t : List ℝ) : ∀ (r1 
       simp only [List.length_cons, pow_succ]
       field_simp
 
+/-- `cal_max_weight` only rescales the weight by `1 / (1.001 · weight(x*))` (all inputs) -/
+theorem getWeightCal_eq (r32 : ℝ → ℝ) (m0 : ℝ) (mass : List ℝ) (imp : Bool) (xopt ms : List ℝ) :
+    getWeightCal r32 m0 mass imp xopt ms
+      = getWeight r32 m0 mass imp ms / (getWeight r32 m0 mass true xopt * 1.001) := by
+  unfold getWeightCal calWtMax
+  cases imp with
+  | false => simp only [getWeight, Bool.false_eq_true, if_false, div_div]
+  | true => simp only [getWeight, if_true, div_div, mul_div_assoc]
+
 /-! ### counting -/
 
 theorem draw_some {n : Nat} {ds ds' : List (List ℝ)} {d : List ℝ} (h : draw n ds = some (d, ds')) :
